@@ -18,6 +18,7 @@ func init() {
 			"the CLI range rules of C16 (the resolved window is what the containers are asked for)",
 			"PV-ORDER SetFromRecord: attribute maps (the container's labels) are applied after the line's well-known fields on every path",
 			"PV-WHOLE openLog: every successful return follows the ContainerLogs request",
+			"PV-WHOLE SetAttrs visits every attribute",
 		},
 		NotDecided: []string{"the Docker daemon's own since/until semantics", "regexp engine semantics", "that strconv/time functions meet their contracts"},
 		Rules: func(r *Run) {
@@ -35,6 +36,7 @@ func init() {
 			ruleTimeParams(r) // the window the CLI resolves is the window the containers are asked for
 			ruleSetFromRecordOrder(r)
 			ruleOpenLogAlwaysAsks(r)
+			ruleSetAttrsWhole(r)
 		},
 	})
 }
